@@ -149,8 +149,18 @@ type Engine struct {
 	HookFires    []HookFire
 	GoPolicy     string // "" (unsupported) | "skip"
 	TickerTicks  int
+	TimerBudget  int // go_policy coro: timer firings per scheduler run
 	Stats        ComposeStats
 	ThreadsDone  []*Thread
+
+	// goroutines as coroutines (coro.go)
+	coros        []*coro
+	cur          *coro
+	frames       []*frameRec
+	fireTimer    bool
+	mainRetrying bool
+	inRunCoros   bool
+	lastFired    int
 }
 
 func NewEngine(prog *ssa.Program, pkg *ssa.Package, opts Opts) *Engine {
